@@ -109,7 +109,8 @@ theorem pc_stepOpen (c : Case) (s : St) (p : Pop) : PcExcept (popJob p) s (stepO
     · split
       · exact PcExcept.refl _ s
       · exact (PcExcept.trans (fun _ _ => rfl) (pc_setCap _ _ _)).weaken
-  | cancel t f => exact PcExcept.refl _ s
+  | cancel t f => intro i _; rfl
+  | healall t => intro i _; rfl
   | job t j cont =>
     cases cont with
     | false =>
